@@ -369,3 +369,39 @@ pub fn doc_brief(d: &RDoc) -> Value {
         RDoc::Index(ix) => json!({"index": ix.sections.iter().map(|s| json!({"offset": s.off, "url": s.url, "map": s.map.as_ref().map(|m| doc_brief(m))})).collect::<Vec<_>>()}),
     }
 }
+
+// ---------------------------------------------------------------------------------
+// slice X: extreme coordinates (deltas of 2^31 and more, both directions)
+
+pub const X_VALS: [u32; 6] = [0, 7, (1 << 31) - 1, 1 << 31, u32::MAX - 1, u32::MAX];
+
+pub fn x_count() -> u64 {
+    // two tokens on line 0: generated columns a <= b, each with original (line, col) over X_VALS^2;
+    // plus a third block: three tokens over the reduced set {0, 2^31, MAX}
+    let two = 21 * 36 * 36;
+    let three = 10 * 9 * 9 * 9;
+    two + three
+}
+
+pub fn x_map(idx: u64) -> RMap {
+    let two = 21 * 36 * 36;
+    let mut toks = vec![];
+    if idx < two {
+        let pair = multiset_unrank(6, 2, idx / (36 * 36));
+        let r = idx % (36 * 36);
+        let (p, q) = (r / 36, r % 36);
+        toks.push(RTok::new(0, X_VALS[pair[0]], Some((0, X_VALS[(p / 6) as usize], X_VALS[(p % 6) as usize], Some(0)))));
+        toks.push(RTok::new(0, X_VALS[pair[1]], Some((1, X_VALS[(q / 6) as usize], X_VALS[(q % 6) as usize], None))));
+    } else {
+        let red = [0u32, 1 << 31, u32::MAX];
+        let k = idx - two;
+        let cols = multiset_unrank(3, 3, k / 729);
+        let mut r = k % 729;
+        for i in 0..3 {
+            let v = r % 9;
+            r /= 9;
+            toks.push(RTok::new(if i == 2 { 1 } else { 0 }, red[cols[i]], Some((0, red[(v / 3) as usize], red[(v % 3) as usize], None))));
+        }
+    }
+    RMap { sources: vec!["a".into(), "b".into()], names: vec!["n".into()], tokens: toks, ..Default::default() }
+}
